@@ -313,3 +313,47 @@ def render_line(line, cfg, case="lower", salt=""):
     if f == "assign":
         return name_text(line["name"], case) + " = " + render_line(line["rhs"], cfg, case, salt)
     raise ToolError("no rendering for form " + f)
+
+
+# ---------------------------------------------------------------------------------------------
+# language words (config.json of the tree under test)
+# ---------------------------------------------------------------------------------------------
+CONST_UNITS = {1: "day", 2: "week", 3: "month", 4: "year", 5: "second", 6: "minute", 7: "hour"}
+CONST_DAYS = {8: "today", 9: "tomorrow", 10: "yesterday", 11: "now"}
+
+
+def languages():
+    return sorted(config_json()["languages"].keys())
+
+
+def duration_words(lang):
+    """unit -> every configured spelling of that duration unit in lang"""
+    cp = config_json()["languages"][lang].get("constant_pair", {})
+    grp = set(config_json()["languages"][lang].get("word_group", {}).get("duration_group", []))
+    out = {}
+    for w, c in cp.items():
+        if c in CONST_UNITS and w in grp:
+            out.setdefault(CONST_UNITS[c], []).append(w)
+    return out
+
+
+def conversion_words(lang):
+    return list(config_json()["languages"][lang].get("word_group", {}).get("conversion_group", []))
+
+
+def operator_words(lang):
+    """operator character -> words of the language that mean it"""
+    out = {}
+    for w, t in config_json()["languages"][lang].get("alias", {}).items():
+        if t.startswith("[OPERATOR:") and len(t) == 12:
+            out.setdefault(t[10], []).append(w)
+    return out
+
+
+def dur_parts_text(parts, lang, widx=0, joiner=" "):
+    words = duration_words(lang)
+    out = []
+    for i, p in enumerate(parts):
+        ws = words[p["u"]]
+        out.append("%d %s" % (p["n"], ws[(widx + i) % len(ws)]))
+    return joiner.join(out)
